@@ -119,6 +119,13 @@ def start_vector(spec, M):
         cols = rs.choice(m, size=k, replace=False)
         c = rs.standard_normal(k) + 0.5
         x = V[:, cols] @ c
+    elif kind == 'eigvec' and m >= 1:
+        # an eigenvector of a general block (invariant subspace of dimension 1; real part for real operators)
+        w, V = np.linalg.eig(M[np.ix_(I, I)])
+        x = V[:, rs.randint(m)]
+        if not spec['cplx']:
+            x = x.real if np.linalg.norm(x.real) > 0.1 else x.imag
+        x = np.asarray(x, dtype=M.dtype)
     elif kind == 'basis':
         x = np.zeros(m, dtype=M.dtype)
         x[rs.randint(m)] = 1.0
@@ -155,3 +162,110 @@ def dec(x):
     if a.size == 0:
         return np.zeros(a.shape[:-1] if a.ndim > 1 else (0,), dtype=complex)
     return a[..., 0] + 1j * a[..., 1]
+
+
+# ------------------------------------------------------------------------------ wrapper trees (coverage audit)
+# tree := ['leaf', seed_offset, herm]
+#       | ['sum', tree, tree]
+#       | ['shift', tree, [re, im]]
+#       | ['boost', tree, [[re, im], ...], tag, cplx_vecs, [scale, ...]]          orig + sum_i b_i |v_i><v_i|   (v_i as given, NOT normalised)
+#       | ['ortho', tree, count, tag, cplx_vecs, dependent, [scale, ...]]         P orig P,  P = 1 - projector on span(o_i)
+def pair_indices(spec, spec2):
+    """flat (row-major) indices i_a * n_b + i_b of the two-leg vectors theta[a, b] with the total charge of (sector of spec, sector of spec2)"""
+    fa, fb = flat_charges(spec['leg']), flat_charges(spec2['leg'])
+    mods = spec['leg']['mods']
+    ja, jb = spec['leg']['qconj'], spec2['leg']['qconj']
+
+    def tot(a, b):
+        return tuple(((ja * u + jb * v) % mm) if mm > 1 else (ja * u + jb * v) for u, v, mm in zip(a, b, mods))
+    want = tot(tuple(spec['leg']['charges'][spec['sector']]), tuple(spec2['leg']['charges'][spec2['sector']]))
+    nb = len(fb)
+    return [i * nb + j for i, a in enumerate(fa) for j, b in enumerate(fb) if tot(a, b) == want]
+
+
+def tree_vectors(spec, count, tag, cplx, scales=None, spec2=None):
+    """`count` vectors in the charge sector of spec (full-space numpy vectors); real or complex entries independent of the operator dtype.
+    With spec2: flattened two-leg vectors theta[a, b] in the sector of the pair."""
+    rs = np.random.RandomState((spec['seed'] * 31 + 101 * tag + 7) % (2 ** 31))
+    if spec2 is not None:
+        I = pair_indices(spec, spec2)
+        n = sum(spec['leg']['sizes']) * sum(spec2['leg']['sizes'])
+        out = []
+        for i in range(count):
+            v = np.zeros(n, dtype=complex if cplx else float)
+            v[I] = _rand(rs, (len(I),), cplx)
+            if scales:
+                v = v * scales[i % len(scales)]
+            out.append(v)
+        return out
+    I = sector_indices(spec['leg'], spec['sector'])
+    n = sum(spec['leg']['sizes'])
+    out = []
+    for i in range(count):
+        v = np.zeros(n, dtype=complex if cplx else float)
+        v[I] = _rand(rs, (len(I),), cplx)
+        if scales:
+            v = v * scales[i % len(scales)]
+        out.append(v)
+    return out
+
+
+def tree_ortho_vectors(spec, tree, spec2=None):
+    ovs = tree_vectors(spec, tree[2], tree[3], tree[4], tree[6] if len(tree) > 6 else None, spec2)
+    if tree[5] and len(ovs) > 1:
+        ovs[1] = 2.0 * ovs[0]
+    return ovs
+
+
+def projector(ovs, n):
+    if not ovs:
+        return np.eye(n)
+    O = np.array(ovs).T
+    U, sv, _ = np.linalg.svd(O, full_matrices=False)
+    U = U[:, sv > 1e-10 * max(1e-300, sv[0])]
+    return np.eye(n) - U @ U.conj().T
+
+
+def tree_dense(spec, tree, spec2=None):
+    """dense matrix of the operator a wrapper tree stands for, written from the class documentation.
+    With spec2 the leaves are MA (x) 1 + 1 (x) MB acting on flattened two-leg vectors theta[a, b]."""
+    kind = tree[0]
+    if kind == 'leaf':
+        MA = dense_operator(dict(spec, seed=spec['seed'] + tree[1], herm=bool(tree[2])))
+        if spec2 is None:
+            return MA
+        MB = dense_operator(dict(spec2, seed=spec2['seed'] + tree[1], herm=bool(tree[2])))
+        return np.kron(MA, np.eye(MB.shape[0])) + np.kron(np.eye(MA.shape[0]), MB)
+    A = tree_dense(spec, tree[1], spec2)
+    n = A.shape[0]
+    if kind == 'sum':
+        return A + tree_dense(spec, tree[2], spec2)
+    if kind == 'shift':
+        s = complex(*tree[2])
+        return A + (s if s.imag != 0 else s.real) * np.eye(n)
+    if kind == 'boost':
+        vs = tree_vectors(spec, len(tree[2]), tree[3], tree[4], tree[5] if len(tree) > 5 else None, spec2)
+        out = A.astype(complex)
+        for b, v in zip(tree[2], vs):
+            out = out + complex(*b) * np.outer(v, v.conj())
+        return out
+    if kind == 'ortho':
+        P = projector(tree_ortho_vectors(spec, tree, spec2), n)
+        return P @ A @ P
+    raise ValueError(kind)
+
+
+def tree_first_leaf(tree):
+    while tree[0] != 'leaf':
+        tree = tree[1]
+    return tree
+
+
+def tree_kinds(tree, out=None):
+    out = [] if out is None else out
+    out.append(tree[0])
+    if tree[0] != 'leaf':
+        tree_kinds(tree[1], out)
+        if tree[0] == 'sum':
+            tree_kinds(tree[2], out)
+    return out
